@@ -330,6 +330,19 @@ def main(argv=None):
     except subprocess.TimeoutExpired:
         print("INFRA: timeout in harness")
         return 2
+    except Exception as e:  # noqa: BLE001
+        # The harness itself failed.  On the validated tree that is a defect of the machinery: no verdict (exit 2).  On a tree whose
+        # source differs from the validated one the likeliest cause is an answer of a shape the unchanged library never gives (a
+        # program that is not posed, a missing field, …): the correspondence is broken at that point — recorded as such, the
+        # violations found so far are kept, and the search for a failing input goes on below.
+        tb = traceback.format_exc()
+        if not changed_src:
+            sys.stderr.write(tb[-3000:] + "\n")
+            print("INFRA: the harness failed on the validated tree: %r" % (e,))
+            return 2
+        log.append(tb)
+        ctx.disagreements.append({"what": "the correspondence harness could not process what the changed library returned: %r" % (e,),
+                                  "traceback": tb[-1500:], "changed_sources": changed_src[:10]})
 
     known = load_known()
     real_viol = []
